@@ -90,6 +90,12 @@ def spaces(tier, seed):
             for cbca in (0, 1):
                 nested0.append({"kind": "nested", "m": m, "w": w, "s": s, "cbca": cbca, "lim": 3, "const": 1 - cbca,
                                 "spec": {"ny": ny, "nx": nx, "seed": seed}})
+                if s == 1 or thorough:
+                    # a cost_volume_confidence step between the matching cost and the aggregation must leave the costs
+                    # alone (its normalisation uses the global extrema of the volume, which depend on the interval)
+                    for conf in ("ambiguity", "risk"):
+                        nested0.append({"kind": "nested", "m": m, "w": w, "s": s, "cbca": cbca, "lim": 3, "const": 0,
+                                        "conf": conf, "spec": {"ny": ny, "nx": nx, "seed": seed}})
     k = seed
     for m, w in MW:
         ny, nx = max(w, 2), w + 2
@@ -162,12 +168,22 @@ def _digest(*arrays):
     return h.hexdigest()[:12]
 
 
-def compute(spec, m, w, s, cbca):
+def compute(spec, m, w, s, cbca, conf=None):
     """-> (cv after matching cost (deep copy), cv after cbca or None) ; raises are returned as ('stage', exc)"""
     left, right, _ = M.build(spec)
     cv, err = M.class_api_staged(left, right, M.mc_cfg(m, w, s))
     if err is not None:
         return None, None, err
+    if conf:
+        import xarray as xr  # pylint: disable=import-outside-toplevel
+        from pandora import cost_volume_confidence  # pylint: disable=import-outside-toplevel
+
+        try:
+            step = cost_volume_confidence.AbstractCostVolumeConfidence(
+                **{"confidence_method": conf, "eta_max": 0.7, "eta_step": 0.1, "indicator": ""})
+            _, cv = step.confidence_prediction(xr.Dataset(), left, right, cv)
+        except Exception as e:  # pylint: disable=broad-except
+            return cv, None, ("confidence-" + conf, e)
     after = None
     if cbca:
         from pandora import aggregation  # pylint: disable=import-outside-toplevel
@@ -208,7 +224,7 @@ def run_nested(case):
     tag = f"{m} w={w} subpix={s} cbca={cbca} spec={case['spec']}"
     for a, b in intervals:
         spec = dict(case["spec"], dmin=a, dmax=b)
-        cv, agg, err = compute(spec, m, w, s, cbca)
+        cv, agg, err = compute(spec, m, w, s, cbca, case.get("conf"))
         if err is not None:
             viol.append({"clause": "raises", "key": f"C09/raises/{err[0]}/{type(err[1]).__name__}",
                          "detail": f"{tag} interval [{a},{b}]: {err[0]} raised {err[1]!r}"})
